@@ -631,7 +631,7 @@ def check_call(contract, func, kwargs, spec_funcs, describe=None, exc_lattice=No
     if clock is not None and 'now' in ghosts:
         env2['now'] = clock
         ghosts.discard('now')
-    all_ens = contract.all_ensures() if hasattr(contract, 'all_ensures') else contract.ensures
+    all_ens = list(contract.all_ensures() if hasattr(contract, 'all_ensures') else contract.ensures) + list(getattr(contract, 'ensures_concrete', []))
     for i, e in enumerate(all_ens):
         if ghosts and any(isinstance(x, ast.Name) and x.id in ghosts for x in ast.walk(ast.parse(e.strip(), mode='eval'))):
             continue      # clause mentions a function-local ghost (e.g. the clock value read inside): not evaluable
